@@ -25,7 +25,7 @@ Task: produce TWO independent alternative changes (A and B, at different code si
   1. the library still imports and the EXISTING test-suite still passes with the change (at minimum run the test modules of the files you touched and of their main callers, e.g. `cd {wt} && /venv/bin/python -m pytest -q -p no:cacheprovider glue/core/tests glue/utils/tests -x -q`; the full suite `cd {wt} && /venv/bin/python -m pytest -q -p no:cacheprovider glue` takes about 15 minutes - run it once per final change if you can; the 8 tests that already fail on the clean tree (pandas/excel/wcs_autolinking ones) do not count);
   2. the change makes the library violate the property above for some input / sequence of operations;
   3. the violation needs something SPECIFIC to manifest - a particular multi-step sequence of operations, an unusual but legal input (particular shape, step, dtype, nesting, ordering, angle...), re-entrancy, an exception at a particular point, or two cooperating sites that each look fine alone - NOT something that ordinary use would expose at once. It should look like a plausible refactoring slip, an optimisation or an off-by-one that a reviewer could miss, not sabotage.
-  4. you provide a demonstration: a small standalone Python program `demo_A.py` (resp. `demo_B.py`) that uses only the public behaviour of the library, exits with status 1 (printing what went wrong) when run against the changed tree and exits 0 against the unchanged tree. Run it as `cd {wt} && PYTHONPATH={wt} /venv/bin/python {out}/demo_A.py` (the PYTHONPATH matters: without it the script would import the installed copy; make the demo print glue.__file__) both with and without your change (use `git stash` / `git checkout -- .` to switch) and confirm both outcomes yourself.
+  4. you provide a demonstration: a small standalone Python program `demo_A.py` (resp. `demo_B.py`) that uses only the public behaviour of the library, exits with status 1 (printing what went wrong) when run against the changed tree and exits 0 against the unchanged tree. Run it as `cd {wt} && PYTHONPATH={wt} /venv/bin/python {out}/demo_A.py` (the PYTHONPATH matters: without it the script would import the installed copy; make the demo print glue.__file__) both with and without your change (switch with `git diff > /tmp/seed_out/<id>/wip.diff; git checkout -- .; ...; git apply /tmp/seed_out/<id>/wip.diff` - do NOT use `git stash`: the stash is shared between all worktrees of the repository and other agents are working in parallel) and confirm both outcomes yourself.
 
 Deliverables in {out}: `patch_A.diff` and `patch_B.diff` (each produced by `git diff` in the worktree against the clean HEAD, each applying on its own to a clean tree), `demo_A.py`, `demo_B.py`, and `notes.md` saying for each change: what it changes, why the existing tests do not notice, what exactly is needed for the violation to manifest, and which test commands you ran with their pass/fail counts. Leave the worktree clean (`git checkout -- .`) when done. Do not commit anything. Keep each patch small (a few lines).
 
